@@ -161,7 +161,7 @@ def encode_job(job: Dict[str, Any]) -> Dict[str, Any]:
     literal = job.get("literal")
 
     def build():
-        return P.compile_abi(P.encode_program(t, lens, backend, literal, bool(job.get("int_exprs"))), job["version"], job.get("optimize"))
+        return P.compile_abi(P.encode_program(t, lens, backend, literal, bool(job.get("int_exprs")), bool(job.get("expr_forms"))), job["version"], job.get("optimize"))
 
     out, prog, teal = _common(job, build)
     base = {"kind": "encode", "type": T.T_str(t), "job": job}
